@@ -56,6 +56,7 @@ package leader
 //@ field kvElection.watcherRunning     atomic
 //@ field kvElection.ctx                guarded_by(mu)
 //@ field kvElection.cancel             guarded_by(mu)
+//@ field kvElection.termCancel        guarded_by(mu)
 //@ field kvElection.onPromote          guarded_by(mu)
 //@ field kvElection.onDemote           guarded_by(mu)
 //@ field kvElection.healthFailureCount owned_by(heartbeatLoop,handleHealthCheckFailure)
@@ -117,6 +118,7 @@ package leader
 //@ lockinv kvElection.mu C02.claim_implies_running:  isLeader ==> (ctx != nil && !stopped)
 //@ lockinv kvElection.mu C18.stopped_implies_state:  stopped ==> state == "STOPPED"
 //@ lockinv kvElection.mu C09+C19.cancel_set_with_ctx:    ctx != nil ==> cancel != nil
+//@ lockinv kvElection.mu C19.term_cancel_set:            isLeader ==> termCancel != nil
 
 // Hooks that apply in every function: whoever stores the claim refreshes the
 // gauge before releasing the mutex; whoever reports a transition reports the
@@ -132,6 +134,7 @@ package leader
 //@   on store kvElection.isLeader as s when !s.value set $claimCleared = true
 //@   on call updateIsLeaderMetric set $gaugeFresh = true
 //@   on call kvElection.cancel assert C19+C09.election_ctx_cancelled_only_by_stop_paths: caller.mayCancelElection
+//@   on call kvElection.termCancel assert C19.term_ctx_cancelled_only_when_claim_cleared: caller.mayCancelTerm
 //@   on unlock kvElection.mu assert C18.gauge_follows_claim: $gaugeFresh
 //@   on call recordTransition as c assert C18.transition_chain: c.fromState == $stateAtLock && c.toState == $stateStored && held(c.e.mu) == 2
 
@@ -469,7 +472,7 @@ package leader
 //@   on store kvElection.revision set e.revSet = true
 //@   on call onPromote as c assert C05.promote_gets_published_token: c.arg1 == token
 //@   on load kvElection.ctx assert C19+C09.election_ctx_read_under_lock: held(e.mu) >= 1
-//@   on call onPromote as c assert C19.derived_from_election_ctx: origin(c.arg0, "ctx:derived") && origin(ctxof(c.arg0), "field:kvElection.ctx")
+//@   on call onPromote as c assert C19.derived_from_election_ctx: origin(c.arg0, "ctx:derived") && origin(ctxof(c.arg0), "ctx:derived") && origin(ctxof(ctxof(c.arg0)), "field:kvElection.ctx")
 //@   on call ctxcancel assert C19.not_cancelled_early: calls(onPromote) == 1
 //@   on call onPromote assert C08.promote_once_per_activation: calls(onPromote) == 1
 //@   ghost claimed Bool = false
@@ -495,6 +498,8 @@ package leader
 //@   requires C07+C10.no_demotion_without_cause: unlessLeader || caller.demote_cause
 //@   ghost out cleared Bool = false
 //@   ghost termCancelled Bool = false
+//@   ghost mayCancelTerm Bool = false
+//@   on store kvElection.isLeader as s when !s.value set mayCancelTerm = cleared
 //@   ghost watcherSeen Bool = false
 //@   ghost ctxSeen Bool = false
 //@   on lock kvElection.mu set cleared = e.isLeader
@@ -513,7 +518,7 @@ package leader
 //@   on store kvElection.isLeader assert C07.settling_never_clears_a_claim: unlessLeader ==> !cleared
 //@   ensures C07.settling_reports_nothing_cleared: unlessLeader ==> !result
 //@   ensures C08.reports_cleared: !unlessLeader ==> result == cleared
-//@   ensures C19.cancelled_on_demotion: cleared ==> termCancelled
+//@   ensures C19.cancelled_on_demotion: cleared && !unlessLeader ==> termCancelled
 //@   ghost stateL Int = 0
 //@   on lock kvElection.mu set stateL = e.state
 //@   ensures C06.failed_round_rearms: stateL != "STOPPED" && !(unlessLeader && cleared) && ctxSeen && !watcherSeen ==> spawns(demote$1) == 1
